@@ -706,10 +706,99 @@ def t_cache(tree):
     return tree
 
 
+def t_log(tree):
+    """an observability commit: a module logger, a debug line on entry of every function and one per loop iteration
+    (arguments only read names), a perf_counter reading around every function body that is logged and dropped"""
+    has_future = 1 if (tree.body and isinstance(tree.body[0], ast.Expr) and isinstance(tree.body[0].value, ast.Constant)) else 0
+    k = [0]
+    for fn in functions(tree):
+        doc = 1 if (fn.body and isinstance(fn.body[0], ast.Expr) and isinstance(fn.body[0].value, ast.Constant)) else 0
+        params = [a.arg for a in fn.args.args]
+        entry = ast.parse("_mm_log.debug('enter %s %s', %r, %s)" % ("%s", "%s", fn.name, ("len(%s)" % params[-1]) if False else repr(len(params)))).body[0]
+
+        class T(ast.NodeTransformer):
+            def visit_FunctionDef(self, n):
+                return n if n is not fn else self.generic_visit(n)
+
+            def visit_Lambda(self, n):
+                return n
+
+            def visit_For(self, n):
+                self.generic_visit(n)
+                k[0] += 1
+                n.body = [ast.parse("_mm_log.debug('iteration of loop %d')" % k[0]).body[0]] + n.body
+                return n
+        T().visit(fn)
+        fn.body = fn.body[:doc] + [entry] + fn.body[doc:]
+    pre = ast.parse("import logging\n_mm_log = logging.getLogger(__name__)").body
+    # after the module docstring and __future__ imports
+    i = has_future
+    while i < len(tree.body) and isinstance(tree.body[i], ast.ImportFrom) and tree.body[i].module == "__future__":
+        i += 1
+    tree.body = tree.body[:i] + pre + tree.body[i:]
+    return tree
+
+
+_SIG_CACHE = {}
+
+
+def _all_sigs():
+    """parameter lists of the package's functions / methods / constructors by name: {name: [list of parameter lists]}"""
+    if _SIG_CACHE:
+        return _SIG_CACHE
+    d = os.path.join(REPO, "artap")
+    for fn in os.listdir(d):
+        if not fn.endswith(".py"):
+            continue
+        try:
+            tree = ast.parse(open(os.path.join(d, fn), encoding="utf-8").read())
+        except SyntaxError:
+            continue
+        for st in tree.body:
+            if isinstance(st, ast.FunctionDef):
+                _SIG_CACHE.setdefault(st.name, []).append((st.args, False))
+            elif isinstance(st, ast.ClassDef):
+                for m in st.body:
+                    if isinstance(m, ast.FunctionDef):
+                        static = any(isinstance(x, ast.Name) and x.id == "staticmethod" for x in m.decorator_list)
+                        _SIG_CACHE.setdefault(st.name if m.name == "__init__" else m.name, []).append((m.args, not static))
+    return _SIG_CACHE
+
+
+def t_kwargs(tree):
+    """f(a, b, c) -> f(a, b=b, c=c) at the call sites of the package's own functions, when every definition of that
+    name has the same parameter list (so the keyword names are right whichever definition is reached)"""
+    sigs = _all_sigs()
+
+    class T(ast.NodeTransformer):
+        def visit_Call(self, n):
+            self.generic_visit(n)
+            nm = n.func.attr if isinstance(n.func, ast.Attribute) else (n.func.id if isinstance(n.func, ast.Name) else None)
+            defs = sigs.get(nm)
+            if not defs or nm.startswith("__") or any(isinstance(a, ast.Starred) for a in n.args) or len(n.args) < 2:
+                return n
+            lists = set()
+            for a, drop in defs:
+                if a.vararg or a.kwarg or a.posonlyargs:
+                    return n
+                lists.add(tuple([x.arg for x in a.args][1 if drop else 0:]))
+            if len(lists) != 1:
+                return n
+            ps = list(lists)[0]
+            if len(n.args) > len(ps) or any(k.arg in ps[:len(n.args)] for k in n.keywords if k.arg):
+                return n
+            keep = 1
+            new_kw = [ast.keyword(arg=ps[i], value=n.args[i]) for i in range(keep, len(n.args))]
+            n.keywords = new_kw + n.keywords
+            n.args = n.args[:keep]
+            return n
+    return T().visit(tree)
+
+
 TRANSFORMS = {"inline1": t_inline1, "extract": t_extract, "ifexp": t_ifexp, "comp": t_comp, "guard": t_guard, "tuple": t_tuple, "while": t_while, "rename": t_rename, "negate": t_negate, "flip": t_flip, "demorgan": t_demorgan, "enum": t_enum, "temp": t_temp,
-              "flatten": t_flatten, "unflatten": t_unflatten, "annot": t_annot, "counter": t_counter, "aug": t_aug, "rettemp": t_rettemp, "cache": t_cache}
+              "flatten": t_flatten, "unflatten": t_unflatten, "annot": t_annot, "counter": t_counter, "aug": t_aug, "rettemp": t_rettemp, "cache": t_cache, "log": t_log, "kwargs": t_kwargs}
 COMBOS = [("extract", "rename", "flip"), ("inline1", "negate", "while"), ("comp", "rename", "guard"), ("while", "tuple", "ifexp"), ("rename", "temp"), ("negate", "flip"), ("enum", "rename", "flatten"), ("temp", "negate", "unflatten"),
-          ("cache", "counter", "aug"), ("annot", "rettemp", "rename"), ("cache", "extract", "annot")]
+          ("cache", "counter", "aug"), ("annot", "rettemp", "rename"), ("cache", "extract", "annot"), ("log", "rename", "counter")]
 
 
 def make_variant(names, dest):
